@@ -1,10 +1,13 @@
 // Injected (rule T1) as a child module of blots-core/src/formatter.rs under #[cfg(kani)].
 // U-PRINT-CALLS: every printing site consults the parenthesisation decision functions with the operand it is about
-// to print and the side that operand is on. The decision functions are replaced by probes (their own contracts are
-// U-PARENS / U-PARENS-OPERAND); format! is stubbed, so only the *calls* are checked, not the assembled text.
+// to print and the side that operand is on. The arms of expr_to_source / expr_to_source_with_scope / format_single_line
+// are sliced verbatim (rule T3) into verif_print_* functions; the recursive printers are replaced by probes returning an
+// empty string (calling the real recursive printers makes CBMC explore every arm at every level), the decision functions
+// by probes that record (operand, side) and return an arbitrary decision, and format! is stubbed: only the CALLS are
+// checked, not the assembled text.
 use super::*;
 use crate::ast::{Expr, PostfixOp, Spanned, UnaryOp};
-use crate::ast_to_source::expr_to_source_with_scope;
+use crate::ast_to_source::SerializableScope;
 
 static mut EXPECT_LEFT: *const SpannedExpr = std::ptr::null();
 static mut EXPECT_RIGHT: *const SpannedExpr = std::ptr::null();
@@ -19,8 +22,7 @@ fn probe_binop(_op: &BinaryOp, child: &SpannedExpr, is_left: bool) -> bool {
         let c = child as *const SpannedExpr;
         if is_left && c == EXPECT_LEFT { LEFT_CALLS += 1; }
         else if !is_left && c == EXPECT_RIGHT { RIGHT_CALLS += 1; }
-        else if c == EXPECT_LEFT || c == EXPECT_RIGHT { WRONG_CALLS += 1; }
-        // calls about other nodes (deeper operands) are not this site's business
+        else { WRONG_CALLS += 1; }
     }
     kani::any()
 }
@@ -32,125 +34,121 @@ fn probe_operand(child: &SpannedExpr) -> bool {
     kani::any()
 }
 
+// non-empty results: std's `join` / `lines` on zero-length strings go through zero-size raw-pointer code that Kani's
+// memory model flags (false positives unrelated to the code under contract)
+fn fmt_x(_args: std::fmt::Arguments<'_>) -> String { String::from("x") }
+fn print_stub(_e: &SpannedExpr) -> String { String::from("x") }
+fn print_scope_stub(_e: &SpannedExpr, _s: &SerializableScope) -> String { String::from("x") }
+fn format_impl_stub(_e: &SpannedExpr, _max_cols: usize, _indent: usize) -> String { String::from("x") }
+
 fn leaf() -> Box<SpannedExpr> { Box::new(Spanned::dummy(Expr::Null)) }
+
+// one-element argument list (collecting an EMPTY mapped iterator trips a Kani allocator-model check)
+fn one_arg() -> Vec<SpannedExpr> { vec![Spanned::dummy(Expr::Null)] }
 
 fn any_op() -> BinaryOp {
     let k: u8 = kani::any();
     match k % 6 { 0 => BinaryOp::Add, 1 => BinaryOp::Subtract, 2 => BinaryOp::Power, 3 => BinaryOp::Via, 4 => BinaryOp::Equal, _ => BinaryOp::Coalesce }
 }
 
-fn expect_sides(e: &SpannedExpr) {
-    if let Expr::BinaryOp { left, right, .. } = &e.node {
-        unsafe { EXPECT_LEFT = &**left as *const SpannedExpr; EXPECT_RIGHT = &**right as *const SpannedExpr; }
-    }
+fn expect_sides(left: &Box<SpannedExpr>, right: &Box<SpannedExpr>) {
+    unsafe { EXPECT_LEFT = &**left as *const SpannedExpr; EXPECT_RIGHT = &**right as *const SpannedExpr; }
 }
 
-fn check_sides(what_left: &'static str, what_right: &'static str) {
+fn check_sides() {
     let (l, r, w) = unsafe { (LEFT_CALLS, RIGHT_CALLS, WRONG_CALLS) };
-    let _ = (what_left, what_right);
-    assert!(w == 0, "U-PRINT-CALLS#binary:operand-is-never-queried-with-the-wrong-side");
+    assert!(w == 0, "U-PRINT-CALLS#binary:no-operand-is-queried-with-the-wrong-side");
     assert!(l >= 1, "U-PRINT-CALLS#binary:left-operand-is-queried-as-left");
     assert!(r >= 1, "U-PRINT-CALLS#binary:right-operand-is-queried-as-right");
 }
 
 macro_rules! print_harness {
-    ($name:ident, $body:ident, $unwind:expr) => {
+    ($name:ident, $body:ident) => {
         #[kani::proof]
-        #[kani::unwind($unwind)]
-        #[kani::stub(alloc::fmt::format, crate::verif_common::fmt_stub)]
+        #[kani::unwind(6)]
+        #[kani::stub(alloc::fmt::format, fmt_x)]
+        #[kani::stub(std::hash::RandomState::new, crate::verif_common::rs_stub)]
         #[kani::stub(crate::ast_to_source::needs_parens_in_binop, probe_binop)]
         #[kani::stub(crate::ast_to_source::needs_parens_in_prefix, probe_operand)]
         #[kani::stub(crate::ast_to_source::needs_parens_in_postfix, probe_operand)]
+        #[kani::stub(crate::ast_to_source::expr_to_source, print_stub)]
+        #[kani::stub(crate::ast_to_source::expr_to_source_with_scope, print_scope_stub)]
+        #[kani::stub(crate::formatter::format_expr_impl, format_impl_stub)]
+        #[kani::stub(crate::formatter::format_single_line, print_stub)]
         fn $name() {
             $body();
         }
     };
 }
 
-// (1) single-line printer
-fn print_binary_single_line() {
-    let e = Spanned::dummy(Expr::BinaryOp { op: any_op(), left: leaf(), right: leaf() });
-    expect_sides(&e);
-    let s = expr_to_source(&e);
-    std::mem::forget(s);
-    check_sides("", "");
-    std::mem::forget(e);
+// (1) BinaryOp arm of expr_to_source and of expr_to_source_with_scope
+fn print_binary_arms() {
+    let (left, right) = (leaf(), leaf());
+    expect_sides(&left, &right);
+    let op = any_op();
+    if kani::any() {
+        let s = crate::ast_to_source::verif_print_binop(&op, &left, &right);
+        std::mem::forget(s);
+    } else {
+        let scope = SerializableScope::new();
+        let s = crate::ast_to_source::verif_print_binop_scope(&op, &left, &right, &scope);
+        std::mem::forget(s); std::mem::forget(scope);
+    }
+    check_sides();
+    std::mem::forget(left); std::mem::forget(right);
 }
-print_harness!(u_print_calls_single_line, print_binary_single_line, 4);
+print_harness!(u_print_calls_binary_arms, print_binary_arms);
 
-// (2) printer with inlined scope (function outputs)
-fn print_binary_with_scope() {
-    let e = Spanned::dummy(Expr::BinaryOp { op: any_op(), left: leaf(), right: leaf() });
-    expect_sides(&e);
-    let scope = indexmap::IndexMap::new();
-    let s = expr_to_source_with_scope(&e, &scope);
-    std::mem::forget(s);
-    check_sides("", "");
-    std::mem::forget(e); std::mem::forget(scope);
-}
-print_harness!(u_print_calls_with_scope, print_binary_with_scope, 4);
-
-// (3) multi-line layout of a binary operation: every layout path (lambda on the right of via/into/where that fits,
-// that does not fit, and the default break-before-operator path), chosen by the symbolic width
+// (2) multi-line layout of a binary operation: every layout path (lambda on the right of via/into/where that fits,
+// that does not fit, and the default break-before-operator path); the width is symbolic
 fn print_binary_multiline() {
     let lambda_right: bool = kani::any();
+    let left = leaf();
     let right = if lambda_right { Box::new(Spanned::dummy(Expr::Lambda { args: Vec::new(), body: leaf() })) } else { leaf() };
     let op = if lambda_right { BinaryOp::Via } else { any_op() };
-    let e = Spanned::dummy(Expr::BinaryOp { op, left: leaf(), right });
-    expect_sides(&e);
+    expect_sides(&left, &right);
     let max_cols: usize = kani::any();
     kani::assume(max_cols <= 200);
-    if let Expr::BinaryOp { op, left, right } = &e.node {
-        let s = format_binary_op_multiline(op, left, right, max_cols, 0);
-        std::mem::forget(s);
-    }
-    check_sides("", "");
-    std::mem::forget(e);
+    let s = format_binary_op_multiline(&op, &left, &right, max_cols, 0);
+    std::mem::forget(s);
+    check_sides();
+    std::mem::forget(left); std::mem::forget(right);
 }
-print_harness!(u_print_calls_multiline, print_binary_multiline, 4);
+print_harness!(u_print_calls_multiline, print_binary_multiline);
 
-// (4) operands of prefix / postfix operators, calls, index and field access
-fn print_operands() {
-    let k: u8 = kani::any();
+// (3) operands of prefix / postfix operators, calls, index and field access, in both printers
+fn print_operand_arms() {
     let operand = leaf();
     unsafe { EXPECT_OPERAND = &*operand as *const SpannedExpr; }
-    let e = match k % 5 {
-        0 => Spanned::dummy(Expr::UnaryOp { op: UnaryOp::Negate, expr: operand }),
-        1 => Spanned::dummy(Expr::PostfixOp { op: PostfixOp::Factorial, expr: operand }),
-        2 => Spanned::dummy(Expr::Call { func: operand, args: Vec::new() }),
-        3 => Spanned::dummy(Expr::Access { expr: operand, index: leaf() }),
-        _ => Spanned::dummy(Expr::DotAccess { expr: operand, field: String::new() }),
+    let scope = SerializableScope::new();
+    let args1 = one_arg();
+    let k: u8 = kani::any();
+    let s = match k % 10 {
+        0 => crate::ast_to_source::verif_print_unary(&UnaryOp::Negate, &operand),
+        1 => crate::ast_to_source::verif_print_postfix(&PostfixOp::Factorial, &operand),
+        2 => crate::ast_to_source::verif_print_call(&operand, &args1),
+        3 => crate::ast_to_source::verif_print_access(&operand, &leaf()),
+        4 => crate::ast_to_source::verif_print_dot(&operand, &String::new()),
+        5 => crate::ast_to_source::verif_print_unary_scope(&UnaryOp::Not, &operand, &scope),
+        6 => crate::ast_to_source::verif_print_postfix_scope(&PostfixOp::Factorial, &operand, &scope),
+        7 => crate::ast_to_source::verif_print_call_scope(&operand, &args1, &scope),
+        8 => crate::ast_to_source::verif_print_access_scope(&operand, &leaf(), &scope),
+        _ => crate::ast_to_source::verif_print_dot_scope(&operand, &String::new(), &scope),
     };
-    let with_scope: bool = kani::any();
-    if with_scope {
-        let scope = indexmap::IndexMap::new();
-        let s = expr_to_source_with_scope(&e, &scope);
-        std::mem::forget(s); std::mem::forget(scope);
-    } else {
-        let s = expr_to_source(&e);
-        std::mem::forget(s);
-    }
+    std::mem::forget(s);
     assert!(unsafe { OPERAND_CALLS } >= 1, "U-PRINT-CALLS#operand:prefix-postfix-call-index-field-operand-is-queried");
-    std::mem::forget(e);
+    std::mem::forget(operand); std::mem::forget(scope); std::mem::forget(args1);
 }
-print_harness!(u_print_calls_operands, print_operands, 4);
+print_harness!(u_print_calls_operand_arms, print_operand_arms);
 
-// (5) call layouts of the formatter (single-line and multi-line) query the callee position
+// (4) call layouts of the formatter (single-line arm and multi-line function) query the callee position
 fn print_call_layouts() {
     let func = leaf();
     unsafe { EXPECT_OPERAND = &*func as *const SpannedExpr; }
-    let e = Spanned::dummy(Expr::Call { func, args: Vec::new() });
-    let multi: bool = kani::any();
-    if multi {
-        if let Expr::Call { func, args } = &e.node {
-            let s = format_call_multiline(func, args, 80, 0);
-            std::mem::forget(s);
-        }
-    } else {
-        let s = format_single_line(&e);
-        std::mem::forget(s);
-    }
+    let args: Vec<SpannedExpr> = one_arg();
+    let s = if kani::any() { format_call_multiline(&func, &args, 80, 0) } else { verif_print_single_line_call(&func, &args) };
+    std::mem::forget(s);
     assert!(unsafe { OPERAND_CALLS } >= 1, "U-PRINT-CALLS#operand:formatter-call-layouts-query-the-callee");
-    std::mem::forget(e);
+    std::mem::forget(func); std::mem::forget(args);
 }
-print_harness!(u_print_calls_call_layouts, print_call_layouts, 4);
+print_harness!(u_print_calls_call_layouts, print_call_layouts);
